@@ -24,6 +24,10 @@ func H_vals(p []int) {
 	if kind == vkRune || kind == vkSafeRune {
 		i = 0x2039 // the start marker as a rune
 	}
+	if len(p) > 3 {
+		// integer leaves that are markers or the line feed as code points
+		i = []int{42, 0x2039, 0x203A, 10}[p[3]]
+	}
 	_ = strings.Contains
 	vSite(fmt.Sprintf("kind=%d dir=%q", kind, d))
 	v := mkValue(kind, s, i)
@@ -45,6 +49,15 @@ func H_vals(p []int) {
 		if vProp("C03") {
 			vAssert(bytesEq(redactRef(out), redactLines(out)), "C03/per-line-redact")
 		}
+	}
+	// the Print family (operand spacing looks at the operands' types)
+	r2 := catchRedact(func() redact.RedactableString { return redact.Sprint(mkValue(kind, s, i), 3, mkValue(kind, s, i)) })
+	vAssert(!r2.panicked, "C11/no-panic")
+	if !r2.panicked {
+		out2 := []byte(r2.out)
+		wf2, ls2 := wfls(out2)
+		vAssert(wf2, "C01/wf")
+		vAssert(ls2, "C03/lineSafe")
 	}
 	vCover(n > 0, "symbolic-leaf")
 }
